@@ -42,6 +42,26 @@ pub struct OpCase {
     pub ms: usize,
     /// value class: 0 random, 1 all digits +max (aligned signs), 2 all digits -min, 3 alternating extremes, 4 sparse units, 5 zero
     pub val: u8,
+    /// convolutions only: extra columns of the left / right prepared operand (and of the vector it is prepared from)
+    /// beyond `cols`, and signed difference between the prepared size and the size of the vector it is prepared from
+    /// (negative: the preparation truncates; positive: it zero-pads). `cnv_self` uses `xl` / `el` for both sides.
+    #[serde(default)]
+    pub xl: u8,
+    #[serde(default)]
+    pub xr: u8,
+    #[serde(default)]
+    pub el: i8,
+    #[serde(default)]
+    pub er: i8,
+}
+
+/// (prepared size left, prepared size right, limbs of a that take part, limbs of b that take part)
+pub fn cnv_sizes(c: &OpCase) -> (usize, usize, usize, usize) {
+    let is_self = c.op == "cnv_self_apply_dft";
+    let r_size = if is_self { c.a_s } else { c.bs };
+    let pls = (c.a_s as i64 + c.el as i64).max(1) as usize;
+    let prs = if is_self { pls } else { (r_size as i64 + c.er as i64).max(1) as usize };
+    (pls, prs, pls.min(c.a_s), prs.min(r_size))
 }
 
 impl OpCase {
@@ -64,6 +84,10 @@ impl OpCase {
             cout: 1,
             ms: 1,
             val: 0,
+            xl: 0,
+            xr: 0,
+            el: 0,
+            er: 0,
         }
     }
 }
@@ -571,32 +595,44 @@ where
             // ------------------------------------------------------------------ convolutions
             "cnv_apply_dft" | "cnv_pairwise_apply_dft" | "cnv_self_apply_dft" => {
                 let mask: i64 = !0i64 << (c.q.max(0) as u32);
-                let mut pl: CnvPVecL<Vec<u8>, B> =
-                    CnvPVecL::from_data(alloc_aligned::<u8>(m.bytes_of_cnv_pvec_left(c.cols, c.a_s)), n, c.cols, c.a_s);
-                let (r_src, r_size) = if op == "cnv_self_apply_dft" { (&inp.a, c.a_s) } else { (&inp.b, c.bs) };
-                let mut pr: CnvPVecR<Vec<u8>, B> =
-                    CnvPVecR::from_data(alloc_aligned::<u8>(m.bytes_of_cnv_pvec_right(c.cols, r_size)), n, c.cols, r_size);
+                let is_self = op == "cnv_self_apply_dft";
+                let (pls, prs, _, _) = cnv_sizes(c);
+                let lc = c.cols + c.xl as usize;
+                let rcn = c.cols + if is_self { c.xl } else { c.xr } as usize;
+                let mut pl: CnvPVecL<Vec<u8>, B> = CnvPVecL::from_data(alloc_aligned::<u8>(m.bytes_of_cnv_pvec_left(lc, pls)), n, lc, pls);
+                let (r_src, r_size) = if is_self { (&inp.a, c.a_s) } else { (&inp.b, c.bs) };
+                let mut pr: CnvPVecR<Vec<u8>, B> = CnvPVecR::from_data(alloc_aligned::<u8>(m.bytes_of_cnv_pvec_right(rcn, prs)), n, rcn, prs);
                 garbage(pl.data_mut(), o.garbage);
                 garbage(pr.data_mut(), o.garbage);
                 let mut tbs = 0usize;
-                // operands with exactly `cols` columns
-                let mut av = VecZnx::alloc(n, c.cols, c.a_s);
-                for col in 0..c.cols {
-                    for j in 0..c.a_s {
-                        av.at_mut(col, j).copy_from_slice(inp.a.at(col, j));
+                // operands with exactly the column count of their prepared form; columns beyond `cols` hold the negated
+                // digits of the first columns (they never take part in the product)
+                let widen = |src: &VecZnx<Vec<u8>>, ncols: usize, size: usize| -> VecZnx<Vec<u8>> {
+                    let mut v = VecZnx::alloc(n, ncols, size);
+                    for col in 0..ncols {
+                        for j in 0..size {
+                            let s = src.at(col % c.cols, j);
+                            let d = v.at_mut(col, j);
+                            for i in 0..n {
+                                d[i] = if col < c.cols { s[i] } else { -s[i] };
+                            }
+                        }
                     }
-                }
-                if op == "cnv_self_apply_dft" {
-                    let tb = m.cnv_prepare_self_tmp_bytes(c.a_s, c.a_s);
+                    v
+                };
+                let av = widen(&inp.a, lc, c.a_s);
+                if is_self {
+                    let tb = m.cnv_prepare_self_tmp_bytes(pls, c.a_s);
                     tbs += tb;
                     with_scratch::<B, _>(tb, o, &mut issues, |s| m.cnv_prepare_self(&mut pl, &mut pr, &av, mask, s));
                 } else {
-                    let tb = m.cnv_prepare_left_tmp_bytes(c.a_s, c.a_s);
+                    let bv = widen(r_src, rcn, r_size);
+                    let tb = m.cnv_prepare_left_tmp_bytes(pls, c.a_s);
                     tbs += tb;
                     with_scratch::<B, _>(tb, o, &mut issues, |s| m.cnv_prepare_left(&mut pl, &av, mask, s));
-                    let tb = m.cnv_prepare_right_tmp_bytes(c.bs, c.bs);
+                    let tb = m.cnv_prepare_right_tmp_bytes(prs, r_size);
                     tbs += tb;
-                    with_scratch::<B, _>(tb, o, &mut issues, |s| m.cnv_prepare_right(&mut pr, r_src, mask, s));
+                    with_scratch::<B, _>(tb, o, &mut issues, |s| m.cnv_prepare_right(&mut pr, &bv, mask, s));
                 }
                 let (pl_dig, pr_dig) = (digest(pl.data()), digest(pr.data()));
                 let mut res = dft_buf::<B>(n, c.cols, c.rs, extra, o.garbage);
@@ -606,17 +642,17 @@ where
                     // first two swapped (known finding KF-C12-1), so only the exact-window mode of C12 relies on the
                     // documented order; the other checks take the larger of the two readings.
                     let tb = match o.scratch {
-                        ScratchMode::Exact(_) => m.cnv_pairwise_apply_dft_tmp_bytes(c.p as usize, c.rs, c.a_s, r_size),
+                        ScratchMode::Exact(_) => m.cnv_pairwise_apply_dft_tmp_bytes(c.p as usize, c.rs, pls, prs),
                         ScratchMode::Owned => m
-                            .cnv_pairwise_apply_dft_tmp_bytes(c.p as usize, c.rs, c.a_s, r_size)
-                            .max(m.cnv_pairwise_apply_dft_tmp_bytes(c.rs, c.p as usize, c.a_s, r_size)),
+                            .cnv_pairwise_apply_dft_tmp_bytes(c.p as usize, c.rs, pls, prs)
+                            .max(m.cnv_pairwise_apply_dft_tmp_bytes(c.rs, c.p as usize, pls, prs)),
                     };
                     tbs += tb;
                     with_scratch::<B, _>(tb, o, &mut issues, |s| {
                         m.cnv_pairwise_apply_dft(c.p as usize, &mut res, c.rc, &pl, &pr, c.ac, c.bc, s)
                     });
                 } else {
-                    let tb = m.cnv_apply_dft_tmp_bytes(c.p as usize, c.rs, c.a_s, r_size);
+                    let tb = m.cnv_apply_dft_tmp_bytes(c.p as usize, c.rs, pls, prs);
                     tbs += tb;
                     with_scratch::<B, _>(tb, o, &mut issues, |s| m.cnv_apply_dft(c.p as usize, &mut res, c.rc, &pl, c.ac, &pr, c.bc, s));
                 }
